@@ -20,7 +20,7 @@ BKINDS = ["bed-temperature", "chamber-temperature", "hotend-temperature", "feed-
 
 MOTION_KEYS = ["out", "stmts", "pos", "spos", "rel", "srel"]
 ALL_KEYS = ["out", "stmts", "pos", "spos", "rel", "srel", "tool", "coola", "spin", "pmode", "cool", "power", "feed",
-            "tnum", "swap", "bed", "hot", "ch", "erel", "fmode", "inches", "plane", "ccw", "res", "ms", "kelvin",
+            "tnum", "swap", "halt", "bed", "hot", "ch", "erel", "fmode", "inches", "plane", "ccw", "res", "ms", "kelvin",
             "params", "nhook", "lasthook"]
 
 
